@@ -153,6 +153,20 @@ EXTENSIONS = {
          "switch with a sibling per run (~490 runs), and TraceConfigFlow judges every line and the base run.  Findings recorded "
          "in known_findings.json: ratelimit.refuseany is never read (the code reads refuse_any), "
          "filters.rule_list_refresh_timeout is unused, backend.timeout 0s expires immediately instead of disabling the time-out",
+ "EXT9": "GeoIP.tla / TraceGeoIP.tla (+ hand-made world GeoIP_mc.tla, 8 defective / window variants, 'late' and serialised "
+         "variants) -- the GeoIP database internal/geoip: Data (which database answers which field, IPv4-mapped normalisation, "
+         "/24 and /56 cache keys with exact LRU, host cache, nil vs empty location), SubnetByLocation (decision table exact key -> "
+         "top ASN -> country -> zero prefix over derived maps built by the replaceSubnet fold, per family), Refresh (load, two "
+         "scans, publication of location maps, country maps, databases + cache clearing, one action per critical section); "
+         "invariants LocationsAreValues, CacheAgreesWithDB, CachedIsLookup, ReadersSeeOneVersion, FailedRefreshKeepsOld, "
+         "QuiescentConsistent, SubnetContract, SubnetInCountry, DesiredLength, UnknownIsNone.  Bound by real MMDB files (the three "
+         "shipped ones and synthetic ones written by a small writer in the harness, each passing the library's Verify; contents "
+         "listed by an independent reader), a build-time overlay that makes every f.mu.Lock() of file.go a gate, behaviours "
+         "generated by TLC on per-seed random worlds and replayed step by step with pointer identity observed, scripted worlds "
+         "and a concurrent leg under the race detector judged by version interval.  Five findings recorded in "
+         "known_findings.json (a failed scan leaves nil / half-new derived maps; overlapping refreshes leave the databases of "
+         "one with the maps of the other; the top ASN of RU/US/CN/IN is never found; the 178.176.72.0/24 entry for ASN 25159 is "
+         "unreachable for RU locations; prefixes narrower than /24 (/56) survive)",
 }
 
 
